@@ -28,7 +28,7 @@ def units(tier, seed):
         n = spec["name"]
         if G.has_form(spec, G.is_form("union")):
             continue  # how many expansions a Union field hides is not defined consistently by the library itself
-        if n.split(":")[0] in ("S1", "S2", "S3", "S5", "S9", "S11", "S15", "S18") or (n.startswith("F1:") and "," not in n):
+        if n.split(":")[0] in ("S1", "S2", "S3", "S5", "S9", "S11", "S15", "S18", "S27", "S29", "S30") or (n.startswith("F1:") and "," not in n):
             for dec in ("maxdepth", "pigrow"):
                 us.append({"kind": "tree-create", "spec": spec, "decider": dec, "depth_off": 2, "xd": True, "max_execs": 400 if tier == "quick" else 5000})
     # the dependent-types context grammar (lists of names threaded through the tree by hand-written refinements)
